@@ -278,6 +278,45 @@ def ip_match_roundtrip(fam, args):
     return r
 
 
+@register("ip_file_roundtrip")
+def ip_file_roundtrip(fam, args):
+    """C02-H4: one line through FileAnonymizer(anon_ip).anonymize_io and then through a fresh FileAnonymizer(undo_ip_anon)"""
+    import ipaddress
+    family, a, kw, ctx = args["family"], args["a"], args["kw"], args["ctx"]
+    mk = ipaddress.IPv4Address if family == 4 else ipaddress.IPv6Address
+    line = ctx[0] + str(mk(a)) + ctx[1]
+
+    def run():
+        try:
+            o1 = io.StringIO()
+            fam.files.FileAnonymizer(anon_ip=True, **kw).anonymize_io(io.StringIO(line), o1)
+            o2 = io.StringIO()
+            fam.files.FileAnonymizer(anon_ip=False, undo_ip_anon=True, **kw).anonymize_io(io.StringIO(o1.getvalue()), o2)
+        except Exception as e:
+            return dict(texts=[line, "EXC:%s" % type(e).__name__, None])
+        return dict(texts=[line, o1.getvalue(), o2.getvalue()])
+    r, misses = _with_md5(fam, args, run)
+    t0, t1, t2 = r["texts"]
+
+    def tokval(t):
+        """value of the address token of a line that keeps the context verbatim, else None"""
+        if t is None or not (t.startswith(ctx[0]) and t.endswith(ctx[1])):
+            return None
+        try:
+            ip = ipaddress.ip_address(t[len(ctx[0]):len(t) - len(ctx[1])])
+        except ValueError:
+            return None
+        return int(ip) if ip.version == family else None
+    v1, v2 = tokval(t1), tokval(t2)
+    if v1 is None or v2 is None:
+        bad = True          # raised, context changed, or the token is no longer one address of the family
+    else:
+        excused = family == 4 and (_is_mask_spec(a) or _is_mask_spec(v1))
+        bad = (v2 != v1) if excused else (v2 != a)
+    r.update(violated=bad, detail="%r -> %r -> %r" % (t0, t1, t2), misses=misses, spelling_only=(not bad and t2 != (t1 if (family == 4 and v1 is not None and (_is_mask_spec(a) or _is_mask_spec(v1))) else t0)))
+    return r
+
+
 @register("ip_preserve")
 def ip_preserve(fam, args):
     """C04/C05: membership in every configured prefix/network and the host bits must be preserved."""
@@ -801,6 +840,7 @@ def determinism(fam, args):
 def earlier_anonymizer(fam, args):
     what, word = args["what"], args.get("word")
     pre = [dict(anon_pwd=True, anon_ip=False, salt="other", reserved_words=[word])] if what == "reserved" else \
+        [dict(anon_pwd=True, anon_ip=False, salt="other", sensitive_words=["sea"], reserved_words=[word + "sea"])] if what == "reserved-words" else \
         [dict(anon_pwd=True, anon_ip=True, salt="other", sensitive_words=["lax", "attle"])]
     a = _in_subprocess(args["lines"], args["kw"], 1)
     b = _in_subprocess(args["lines"], args["kw"], 1, pre=pre)
